@@ -193,7 +193,6 @@ func SafeParse(s string) (parse.Tree, []*parse.Error, string) {
 type desc struct {
 	Src    string `json:"src"`
 	Stream string `json:"stream"`
-	Relax  bool   `json:"relax,omitempty"`
 	Nodes  int    `json:"nodes"`
 	Errors string `json:"errors"`
 }
@@ -234,21 +233,16 @@ func (rn *runner) emit(stream, s string) {
 	cmp := len(s) <= CmpLimit
 	d := desc{Src: s, Stream: stream, Nodes: st.Nodes, Errors: ErrsText(errs)}
 	nt := len(s) >= 3 && st.Nodes > 6
-	mk := func(relax bool) string {
-		return App("mkCase", Str(s), tt, Errs(errs), PrintTable(s), Bool(relax), Bool(cmp))
-	}
 	c.Count(stream)
+	// inputs with a Redir that has a left operand keep their own narrow class
+	// (the class of the repaired defect checks/C01.fixes/redir-with-left.diff)
+	class := stream
 	if st.RedirWithLeft {
-		// the recorded defect class: judged as the property demands ...
 		c.Count("redir-with-left")
-		c.Emit(reg.Case{Coq: mk(false), Desc: d, Key: fmt.Sprintf("%q", s), Nontrivial: nt, Class: "redir-with-left"})
-		// ... and once more tolerating exactly that defect, so that any other
-		// violation on such an input is still reported under its own class
-		d.Relax = true
-		c.Emit(reg.Case{Coq: mk(true), Desc: d, Key: fmt.Sprintf("%q/relax", s), Nontrivial: nt, Class: stream})
-		return
+		class = "redir-with-left"
 	}
-	c.Emit(reg.Case{Coq: mk(false), Desc: d, Key: fmt.Sprintf("%q", s), Nontrivial: nt, Class: stream})
+	c.Emit(reg.Case{Coq: App("mkCase", Str(s), tt, Errs(errs), PrintTable(s), Bool(cmp)), Desc: d,
+		Key: fmt.Sprintf("%q", s), Nontrivial: nt, Class: class})
 }
 
 // Fixed is a hand-written list covering every construct and error path.
